@@ -8,6 +8,8 @@ decoy fields, bare-LF lines), opaque bytes -- followed by random payload, while 
 payload the other way; ignore_hosts / allow_hosts are set through the option manager (NextLayer.configure sees them).
 First flights are delivered whole, in 1-byte steps after the first 3 bytes, at single split points and randomly cut
 (first segment >= 3 bytes: the documented minimum to recognise a TLS record); hook completions interleave randomly.
+In regular mode the tunnelled flight is delivered after the 200, coalesced with the CONNECT head, or un-gated (arriving while the
+http_connect hook / OpenConnection are pending); opaque and record payloads may start or end with CR / LF octets.
 
 Oracle (vf/ref/c19_hostrules.py, independent): excluded := (allow_hosts and no candidate matches) or (ignore_hosts and
 some candidate matches) over {server address, HTTP Host header as RFC 9112 reads it, SNI} each as "name:port".
@@ -48,6 +50,7 @@ ASSUMPTIONS = [
     "first segment of the first flight has >= 3 bytes (documented minimum for TLS recognition)",
     "the server speaks only after the complete first flight for TLS/HTTP flights (a server-first protocol is neither); for opaque flights it may speak first",
     "a Host header with an explicit port is matched as given; cases whose verdict would differ with the connection's port instead are counted as ambiguous and not judged",
+    "early data directly behind a CONNECT head: one leading empty line (CRLF) may be skipped by the proxy; anything else must arrive byte-exact",
     "one Host field, origin-form target; regexes are searched case-insensitively in 'name:port' as documented",
     "the server's FIN is delivered after everything the client sent was processed (FINs crossing while a hook is pending are not part of this workload); "
     "inside a CONNECT tunnel the client's FIN comes after the server's payload (HttpStream.passthrough documents that half-closes become full closes there)",
@@ -178,7 +181,7 @@ def gen_case(r):
             flight += b"\x14\x03\x03\x00\x01\x01"
             rec_bounds.append(len(flight))
             for _ in range(r.choice([0, 1, 1, 2])):
-                body = bytes(r.randrange(256) for _ in range(r.choice([1, 17, 60, 150])))
+                body = bytes(r.randrange(256) for _ in range(r.choice([1, 17, 60, 150]))) + r.choice([b"", b"", b"\r\n", b"\n"])
                 flight += b"\x17\x03\x03" + len(body).to_bytes(2, "big") + body
                 rec_bounds.append(len(flight))
             feats.append("tls13-trailing-records")
@@ -192,9 +195,17 @@ def gen_case(r):
         flight, hf, host = gen_http(r, host, port)
         feats += hf
     else:
-        flight = r.choice([b"SSH-2.0-OpenSSH_9.0\r\n", b"\x00\x01\x02\x03binary", bytes(r.randrange(256) for _ in range(r.choice([3, 20, 200]))), b"EHLO example.com\r\n"])
+        rnd = lambda n: bytes(r.randrange(256) for _ in range(n))
+        flight = r.choice([b"SSH-2.0-OpenSSH_9.0\r\n", b"\x00\x01\x02\x03binary", rnd(r.choice([3, 20, 200])), b"EHLO example.com\r\n",
+                           b"\x00" + rnd(r.choice([2, 30])) + r.choice([b"\r\n", b"\n", b"\r", b"\r\n\r\n", b"\n\r"]), b"220 ready\r\nMAIL FROM:<a@b>\r\n"])
         if flight[:1] == b"\x16" or re.match(rb"[A-Za-z]{3,}", flight) and b"HTTP/" in flight:
             flight = b"\x00" + flight
+        if r.random() < 0.12:
+            # payload that legitimately starts with CR / LF octets (opaque protocol)
+            flight = r.choice([b"\r\n", b"\n", b"\r\n\r\n", b"\r", b"\n\n\r"]) + flight
+            feats.append("leading-crlf")
+        if flight[-1:] in (b"\r", b"\n"):
+            feats.append("trailing-crlf")
     names = [addr_host] + ([sni] if sni else []) + ([ref.split_host_port(host)[0]] if host else [])
     if sni_only:
         names = [sni]
@@ -241,7 +252,7 @@ def cut_flight(flight, r, seg):
     return [s for s in out if s]
 
 
-def execute(spec, opts, nl, rng, seg, schedule, ref_excluded):
+def execute(spec, opts, nl, rng, seg, schedule, ref_excluded, early="gated"):
     mode = spec["mode"]
     host, port = spec["addr"]
     if mode == "regular":
@@ -280,10 +291,14 @@ def execute(spec, opts, nl, rng, seg, schedule, ref_excluded):
     def quiet(drv):
         return not drv.inbox[drv.client] and not any(p.kind in ("hook", "open") for p in drv.pending)
 
+    # leading CR/LF of early data behind a CONNECT head may be skipped by the proxy (see check_transparent): the server peer
+    # must not wait for those octets before it answers
+    lead = (len(flight) - len(flight.lstrip(b"\r\n"))) if mode == "regular" else 0
+
     def server_factory(drv, conn):
         ssegs = peers.cut(spec["server_payload"], rng, "random")
         # TCP causality: a TLS/HTTP server answers only after it has received the complete first flight
-        gate = None if spec["server_first"] else (lambda drv: len(drv.out[conn]) >= len(flight))
+        gate = None if spec["server_first"] else (lambda drv: len(drv.out[conn]) >= len(flight) - lead)
         out = [(s, gate) for s in ssegs]
         if spec["server_eof"]:
             out.append((sansio.EOF, quiet))
@@ -294,9 +309,16 @@ def execute(spec, opts, nl, rng, seg, schedule, ref_excluded):
         d.context.server.address = (host, port)
     segs = []
     if mode == "regular":
-        segs.append(f"CONNECT {host}:{port} HTTP/1.1\r\nHost: {host}:{port}\r\n\r\n".encode())
+        head = f"CONNECT {host}:{port} HTTP/1.1\r\nHost: {host}:{port}\r\n\r\n".encode()
         established = lambda drv: b"\r\n\r\n" in drv.out[drv.client]
-        segs += [(s, established) for s in fsegs]
+        if early == "coalesced":
+            # the tunnelled first flight starts in the same segment as the CONNECT head (before the 200 exists)
+            segs += [head + fsegs[0]] + fsegs[1:]
+        elif early == "ungated":
+            # the client does not wait for the 200: its bytes arrive while http_connect / OpenConnection are still pending
+            segs += [head] + fsegs
+        else:
+            segs += [head] + [(s, established) for s in fsegs]
     elif mode == "socks5":
         hb = host.encode()
         req = b"\x05\x01\x00\x03" + bytes([len(hb)]) + hb + port.to_bytes(2, "big")
@@ -308,7 +330,7 @@ def execute(spec, opts, nl, rng, seg, schedule, ref_excluded):
     else:
         segs += fsegs
     if tail and mode == "regular":
-        srv_done = lambda drv: bool(drv.servers) and all(all(x[0] is sansio.EOF for x in drv.inbox.get(s, ())) for s in drv.servers)
+        srv_done = lambda drv: b"\r\n\r\n" in drv.out[drv.client] and bool(drv.servers) and all(all(x[0] is sansio.EOF for x in drv.inbox.get(s, ())) for s in drv.servers)
         tail = [(sansio.EOF, srv_done)]
     segs += psegs + tail
     cp = sansio.ScriptPeer(segs)
@@ -390,10 +412,16 @@ def run(ctx):
                 he = spec["hello_end"]
                 extra = {he, he + 1, he + 5, r.randrange(he, n)} | set(spec["rec_bounds"]) | {b - 1 for b in spec["rec_bounds"]}
                 variants += [(p, r.choice(["fifo", "random"])) for p in sorted(extra) if 3 <= p < n]
+            if spec["mode"] == "regular":
+                earlies = ["gated", "coalesced", "coalesced", "ungated", "coalesced", "ungated"]
+                variants = [(sg, sc, earlies[j] if j < len(earlies) else r.choice(["gated", "coalesced", "ungated"])) for j, (sg, sc) in enumerate(variants)]
+                variants.insert(1, ("whole", "random", "ungated"))
+            else:
+                variants = [(sg, sc, None) for sg, sc in variants]
             nvar = 0
-            for seg, sched in variants:
+            for seg, sched, early in variants:
                 try:
-                    d, info = execute(spec, opts, nl, r, seg, sched, dec["excluded"])
+                    d, info = execute(spec, opts, nl, r, seg, sched, dec["excluded"], early or "gated")
                 except Exception as e:
                     ctx.violation("harness-or-layer-crash", {"spec": {k: v for k, v in spec.items()}, "seg": str(seg), "exc": repr(e)})
                     break
@@ -421,7 +449,7 @@ def run(ctx):
                 server_rx = b"".join(bytes(d.out[s]) for s in d.servers)
                 witness = {
                     "mode": spec["mode"], "scheme": spec["scheme"], "addr": spec["addr"], "kind": spec["kind"], "sni": spec["sni"], "host_header": spec["host"], "feats": spec["feats"],
-                    "flight": flight[:400], "ignore_hosts": spec["ignore"], "allow_hosts": spec["allow"], "strategy": spec["strategy"], "seg": seg if isinstance(seg, str) else f"split@{seg}",
+                    "flight": flight[:400], "ignore_hosts": spec["ignore"], "allow_hosts": spec["allow"], "strategy": spec["strategy"], "seg": seg if isinstance(seg, str) else f"split@{seg}", "connect_early": early,
                     "schedule": sched, "first_segment": info["first_seg"][:120], "reference": {"excluded": dec["excluded"], "decisive": sorted(dec["decisive"]), "candidates": dec["cands"]},
                     "asks": [{**a, "client": a["client"][:80]} for a in asks][:6], "hooks": names[:20], "client_eof": spec["client_eof"], "server_eof": spec["server_eof"], "server_first": spec["server_first"],
                 }
@@ -435,13 +463,24 @@ def run(ctx):
                     exp_server = flight + spec["client_payload"]
                     exp_client = spec["server_payload"]
                     bad = []
+                    mech = None
                     if server_rx != exp_server:
-                        bad.append(("to-server", len(exp_server), len(server_rx), exp_server[:60], server_rx[:60]))
+                        k = len(exp_server) - len(exp_server.lstrip(b"\r\n"))
+                        eaten = len(exp_server) - len(server_rx)
+                        if early in ("coalesced", "ungated") and 0 < eaten <= k and server_rx == exp_server[eaten:]:
+                            # only leading CR/LF octets of early data sent behind the CONNECT head are missing
+                            if eaten == 2 and exp_server[:2] == b"\r\n":
+                                ctx.count("tolerated_single_empty_line_after_connect_head")
+                            else:
+                                mech = "connect-early-data-leading-crlf-eaten"
+                                bad.append(("to-server", len(exp_server), len(server_rx), exp_server[:60], server_rx[:60]))
+                        else:
+                            bad.append(("to-server", len(exp_server), len(server_rx), exp_server[:60], server_rx[:60]))
                     if client_rx[pl:] != exp_client:
                         bad.append(("to-client", len(exp_client), len(client_rx) - pl, exp_client[:60], client_rx[pl : pl + 60]))
                     if bad:
-                        ctx.violation(label, {**witness, "diff": bad}, None)
-                    return not bad
+                        ctx.violation(label, {**witness, "diff": bad}, mech)
+                    return not bad or mech is not None
 
                 if spec["tls_hook"]:
                     ctx.count("tls_hook_passthrough")
